@@ -38,6 +38,7 @@ var effectsSchema = []defSpec{
 	{"appendOrigins", "List (String × String × String × String)"}, // (function, variable, class, text)
 	{"storeSites", "List (String × String × String × String)"},    // (function, kind, class, text)
 	{"globals", "List (String × String)"},
+	{"globalClasses", "List (String × String)"},
 	{"evaluatorFields", "List String"},
 	{"filterFields", "List String"},
 	{"evaluateOptsBuilt", "List String"},
@@ -207,6 +208,43 @@ func extractEffects(files map[string]*srcFile) (map[string]lval, []string) {
 	// ---- globals
 	globalSet := map[string]bool{}
 	var globals [][2]string
+	var globalClasses [][2]string
+	// classOfInit: what kind of value a package-level variable is initialised with — only values that the
+	// code can read but has no way to mutate in place are given a class; everything else is "other:<text>"
+	classOfInit := func(sf *srcFile, e ast.Expr) string {
+		if e == nil {
+			return "other:<no initialiser>"
+		}
+		switch x := unparen(e).(type) {
+		case *ast.BasicLit:
+			return "basic"
+		case *ast.CallExpr:
+			if pk, name, ok := pkgSel(x.Fun); ok {
+				switch {
+				case pk == "reflect" && name == "TypeOf":
+					return "typeOf"
+				case pk == "errors" && name == "New":
+					return "errorsNew"
+				}
+			}
+		case *ast.CompositeLit:
+			if mt, ok := x.Type.(*ast.MapType); ok {
+				if pk, name, ok := pkgSel(mt.Key); ok && pk == "reflect" && name == "Kind" {
+					for _, el := range x.Elts {
+						kv, ok := el.(*ast.KeyValueExpr)
+						if !ok {
+							return "other:" + sf.oneLine(e)
+						}
+						if _, isID := kv.Value.(*ast.Ident); !isID {
+							return "other:" + sf.oneLine(e)
+						}
+					}
+					return "kindFnTable"
+				}
+			}
+		}
+		return "other:" + sf.oneLine(e)
+	}
 	for _, sf := range pkgFiles {
 		for _, d := range sf.file.Decls {
 			gd, ok := d.(*ast.GenDecl)
@@ -234,11 +272,17 @@ func extractEffects(files map[string]*srcFile) (map[string]lval, []string) {
 						globalSet[n.Name] = true
 					}
 					globals = append(globals, [2]string{n.Name, init})
+					cls := "other:" + init
+					if len(vs.Values) == len(vs.Names) {
+						cls = classOfInit(sf, vs.Values[i])
+					}
+					globalClasses = append(globalClasses, [2]string{n.Name, cls})
 				}
 			}
 		}
 	}
 	vals["globals"] = lPairs(globals)
+	vals["globalClasses"] = lPairs(globalClasses)
 
 	// ---- call graph by name
 	edges := func(n *effNode) []*effNode {
